@@ -262,9 +262,10 @@ def finish(pid, tier, seed, t0, proof, coverage, failures, assumptions, searcher
     ev = dict(property_id=pid, tier=tier, seed=seed, level=level, coverage=jsonable(cov),
               assumptions=assumptions, wall_s=round(time.time() - t0, 2), violations=violations,
               known_findings_seen=sorted(known_seen))
-    os.makedirs(os.path.join(VERIF, "evidence"), exist_ok=True)
-    with open(os.path.join(VERIF, "evidence", pid + ".json"), "w") as f:
-        json.dump(ev, f, indent=1, sort_keys=True)
+    if not os.environ.get("VERIF_NO_EVIDENCE"):     # regression runs against seeded changes leave the evidence alone
+        os.makedirs(os.path.join(VERIF, "evidence"), exist_ok=True)
+        with open(os.path.join(VERIF, "evidence", pid + ".json"), "w") as f:
+            json.dump(ev, f, indent=1, sort_keys=True)
     for l in lines:
         print(l)
     sys.stdout.flush()
